@@ -611,15 +611,42 @@ pub fn proof_complete(a: &Args) -> Report {
   let nreq = a.u64("requests", 3) as usize;
   let mut rng = rng_from(seed, 1314);
   let xs = inputs(&mut rng, nreq.max(3));
-  for nt in [1usize, 2, 3, 17, 128, 255, 256] {
-    let tags: Vec<u8> = if nt == 1 { vec![255] } else { (0..nt).map(|i| i as u8).collect() };
+  // tag lists: sizes 1..256, and ORDERS — ascending, descending, shuffled, sibling leaves (t, t+128)
+  // and cousins listed high-first and low-first, with repeats
+  use rand::seq::SliceRandom;
+  let mut lists: Vec<Vec<u8>> = vec![vec![255]];
+  for nt in [2usize, 3, 17, 128, 255, 256] {
+    lists.push((0..nt).map(|i| i as u8).collect());
+  }
+  lists.push(vec![130, 2]);
+  lists.push(vec![2, 130]);
+  lists.push(vec![255, 127, 128, 0, 64, 192]);
+  lists.push((0..17u8).rev().collect());
+  lists.push((0..=255u8).rev().collect());
+  lists.push(vec![7, 135, 7, 135, 3]);
+  for n in [16usize, 100, 256] {
+    let mut all: Vec<u8> = (0..=255u8).collect();
+    all.shuffle(&mut rng);
+    all.truncate(n);
+    lists.push(all);
+  }
+  for tags in lists {
+    let nt = tags.len();
     let srv = match Server::new(tags.clone()) {
       Ok(s) => s,
       Err(_) => continue,
     };
     let pk = srv.get_public_key();
     let restored = restored_pk(&pk);
-    let mut probe: Vec<u8> = vec![tags[0], tags[tags.len() - 1], tags[tags.len() / 2]];
+    // every tag of a small list; first, last, middle and eight others of a large one
+    let mut probe: Vec<u8> = if nt <= 20 { tags.clone() } else {
+      let mut p = vec![tags[0], tags[nt - 1], tags[nt / 2]];
+      for _ in 0..8 {
+        p.push(tags[rng.gen_range(0..nt)]);
+      }
+      p
+    };
+    probe.sort();
     probe.dedup();
     for md in probe {
       for (xi, x) in xs.iter().take(nreq).enumerate() {
